@@ -208,26 +208,42 @@ end RV.Oracle.RolloutSM
 namespace RV.Oracle.RolloutSM
 open RV.Arith RV.Traffic RV.RolloutSM
 
-/-- the status points at the first step, which carries traffic, of a canary-style rollout that generates
-    its canary Service -/
-def canaryStyleFirstStep (ro : Rollout) (s : Sub) : Bool :=
+/-- the status points at the first step, which carries traffic, of a canary rollout that generates its canary
+    Service — and the step is not a partition-style full step (`fullStep`, where C04 demands the opposite).
+    For a canary-style rollout (`realPartition = false`) no step is a `fullStep`: the condition holds whatever the
+    step's replicas, 100 % included. -/
+def pinnedFirstStep (ro : Rollout) (s : Sub) (wl : WL) : Bool :=
   match ro.steps[(s.curIdx - 1).toNat]? with
-  | some st => ro.style = .canary && !ro.realPartition && !ro.disableGen && stepHasTraffic st && decide (s.curIdx = 1)
+  | some st => ro.style = .canary && !ro.disableGen && stepHasTraffic st && decide (s.curIdx = 1) &&
+      !(decide (scaledV st.replicas wl.replicas true ≥ wl.replicas) && ro.realPartition)
   | none => false
 
-/-- **C03.iv** — a canary-style rollout with traffic leaves `StepInit` of its first step towards the upgrade (the
-    batch is handed to the BatchRelease: before that no canary pod can exist) only with the stable Service
-    existing and pinned to the stable revision — whatever the step's replicas, 100 % included: the canary
-    Deployment's pods carry the Service's labels too, and an un-pinned stable Service would send them traffic as
-    soon as they are ready, before `StepTrafficRouting` decides their share.
+/-- **C03.iv** — a canary rollout with traffic leaves `StepInit` of its first step towards the upgrade (the batch is
+    handed to the BatchRelease: before that no canary pod can exist) only with the stable Service existing and
+    pinned to the stable revision recorded in the status.  For a canary-style rollout this holds whatever the step's
+    replicas: the canary Deployment's pods carry the Service's labels too, and an un-pinned stable Service would send
+    them traffic as soon as they are ready, before `StepTrafficRouting` decides their share.  The only exception is the
+    partition-style step that replaces every stable pod (`fullStepUnpinsFirst`).
     (Not demanded with `disableGenerateCanaryService`, where the Services are never re-selected.) -/
 def firstStepPinsStable (w : World) (r : StepResult) : Bool :=
   match w.ro.sub, r.w.ro.sub, w.wl with
   | some s, some s', some wl =>
     if inRollingNow w.ro ∧ r.w.ro.reason = .inRolling ∧ w.ro.hasTraffic ∧ wl.consistent ∧
        s.state = .init ∧ (s'.state = .upgrade ∨ s'.state = .trafficRouting ∨ s'.state = .metricsAnalysis) ∧
-       s'.curIdx = s.curIdx ∧ canaryStyleFirstStep w.ro s then
-      r.w.net.stableExists && r.w.net.stableSel.getD "" == s.stableRev
+       s'.curIdx = s.curIdx ∧ pinnedFirstStep w.ro s wl then
+      r.w.net.stableExists && r.w.net.stableSel.getD "" == s'.stableRev
+    else true
+  | _, _, _ => true
+
+/-- **C03 / C04** — `StepTrafficRouting` is skipped after `StepUpgrade` (the status goes from `StepInit` / `StepUpgrade`
+    straight to `StepMetricsAnalysis` of the same step) only by a partition-style canary rollout: a canary-style
+    rollout, whose stable Service stays pinned, always routes the step's traffic share explicitly. -/
+def bypassPartitionOnly (w : World) (r : StepResult) : Bool :=
+  match w.ro.sub, r.w.ro.sub, w.wl with
+  | some s, some s', some wl =>
+    if inRollingNow w.ro ∧ r.w.ro.reason = .inRolling ∧ wl.consistent ∧ (s.state = .init ∨ s.state = .upgrade) ∧
+       s'.state = .metricsAnalysis then
+      w.ro.style = .canary && w.ro.realPartition
     else true
   | _, _, _ => true
 
@@ -237,11 +253,21 @@ def firstStepLeft (w : World) (r : StepResult) : Bool :=
   | some s, some s', some wl =>
     inRollingNow w.ro && r.w.ro.reason = .inRolling && w.ro.hasTraffic && wl.consistent &&
     s.state = .init && (s'.state = .upgrade || s'.state = .trafficRouting || s'.state = .metricsAnalysis) &&
-    decide (s'.curIdx = s.curIdx) && canaryStyleFirstStep w.ro s
+    decide (s'.curIdx = s.curIdx) && pinnedFirstStep w.ro s wl
+  | _, _, _ => false
+
+/-- the antecedent of `bypassPartitionOnly` (for the coverage statistics only) -/
+def bypassTaken (w : World) (r : StepResult) : Bool :=
+  match w.ro.sub, r.w.ro.sub, w.wl with
+  | some s, some s', some wl =>
+    inRollingNow w.ro && r.w.ro.reason = .inRolling && wl.consistent && (s.state = .init || s.state = .upgrade) &&
+    s'.state = .metricsAnalysis
   | _, _, _ => false
 
 /-- the oracles added with the canary-style worlds (evaluated next to `stepOracles`) -/
 def canaryStyleOracles (w : World) (r : StepResult) : List (String × Bool) :=
-  [("C03.first_step_pins_stable", firstStepPinsStable w r)]
+  [("C03.first_step_pins_stable", firstStepPinsStable w r),
+   ("C03.bypass_partition_only", bypassPartitionOnly w r),
+   ("C04.bypass_partition_only", bypassPartitionOnly w r)]
 
 end RV.Oracle.RolloutSM
